@@ -8,7 +8,7 @@ from pathlib2 import Guard, established, success_sites, dominated, expr_guard_ed
 import ex
 
 LEVEL = "other"
-TECHNIQUE = ("PATH: flag-to-decision dominance and call-identity data flow on the Edwards decoder/encoder; FIELDSET: every function that mutates or "
+TECHNIQUE = ("FORMULA: abstract interpretation of the curve formulas' MIR in the domain of rational functions over Z (field kernels = ring operations; serial and AVX2 lane-wise) against the twisted Edwards addition law; PATH: flag-to-decision dominance and call-identity data flow on the Edwards decoder/encoder; FIELDSET: every function that mutates or "
              "assembles an EdwardsPoint field-wise touches all four coordinates with matching sources; shape of projective equality; visibility facts "
              "from the type-checked program; all backends")
 
@@ -22,7 +22,9 @@ def run(tier, R):
         cfgs += [("serial64", "release"), ("fiat64", "release"), ("fiat32", "release"), ("ifma", "release"), ("notables", "release")]
     FS = ctx.facts_for(R, cfgs)
     R.trust("rustc MIR + resolution; mirfacts; mirlib")
-    R.assume("the addition/doubling formulas of curve_models are complete and value-correct, field arithmetic is exact (C01): algebraic content is out of reach of static analysis here")
+    R.assume("field arithmetic implements the ring operations of GF(p) (C01, C11): the FORMULA rules give add / sub / mul / square / square2 / neg / invert their ring meaning and never enter the kernels; "
+             "completeness of the addition law on the curve (no exceptional points for a = -1, d non-square) is the cited theorem of Hisil-Wong-Carter-Dawson / Bernstein-Lange, not re-proved; "
+             "the AVX2 parallel formulas are decided lane-wise (FieldElement2625x4 = four field elements; shuffle / blend move lanes); the IFMA formulas (nightly-only backend) are not")
     for (cfg, mode), F in FS.items():
         check_cfg(F, R, cfg)
 
@@ -274,6 +276,7 @@ def check_cfg(F, R, cfg):
                                                    "conditional selection mixes coordinates or choices", *(() if good else (fv.loc(s[3]),)))
     R.floor("C03.fieldset", I("EdwardsPoint aggregate sites inventoried"), n_agg, 7)
     R.floor("C03.fieldset.writes", I("field-wise writers"), n_fw, 1)
+    formulas(F, R, I, a["variants"][0]["fields"][X]["ty"])
 
     # ------------------------------------------------------------------ identity, negation, predicates
     idf = fn(None, self_ty="^%s$" % EP, trait=r"traits::Identity$", name="identity")
@@ -344,6 +347,29 @@ def check_cfg(F, R, cfg):
                 c = rc(fv, t["args"][0], r"EdwardsPoint::as_projective$") if t else None
                 good = c is not None and root(fv, c["args"][0])[:2] == ("arg", 1)
         (R.ok if good else R.viol)("C03.group_ops", I("EdwardsPoint::double"), "as_projective().double().as_extended()" if good else "double does not delegate to the projective doubling", *(() if good else (fv.loc(),)))
+
+
+def formulas(F, R, I, fe_ty):
+    """FORMULA domain (lib/eng_formula.py, lib/formula_rules.py): the serial curve-model formulas against the twisted Edwards addition law"""
+    import formula_rules as FR
+    n = 0
+    import itertools
+    for inst, f, ok, msg in itertools.chain(FR.run_cases(F, fe_ty), FR.codec(F, fe_ty)):
+        n += 1 if f else 0
+        if ok:
+            R.ok("C03.formula", I(inst), msg)
+        else:
+            R.viol("C03.formula", I(inst), msg, F.loc(f) if f else "")
+    R.floor("C03.formula", I("curve-model formulas decided against the addition law"), n, 24)
+    if any(re.search(r"backend::vector::avx2::edwards::ExtendedPoint$", p) for p in F.adts):
+        nv = 0
+        for inst, f, ok, msg in FR.vector_cases(F, fe_ty):
+            nv += 1 if f else 0
+            if ok:
+                R.ok("C03.formula", I(inst), msg)
+            else:
+                R.viol("C03.formula", I(inst), msg, F.loc(f) if f else "")
+        R.floor("C03.formula", I("AVX2 parallel formulas decided against the addition law"), nv, 9)
 
 
 def short(f):
